@@ -1,5 +1,6 @@
 import Abmarl.Lemmas.Broadcast
 import Abmarl.Lemmas.BroadcastObs
+import Abmarl.Lemmas.BroadcastStep
 /-!
 # `BroadcastSim` (`abmarl/examples/sim/comms_blocking.py`) inside the model: C02, C03, C08
 
@@ -30,22 +31,24 @@ Proved:
   agent without receiving list; a broadcaster whose encoding is not a key of the mapping), and the same state with a
   mapping satisfying `cfgHypb` in which it returns.
 
+* **C02, actions** `broadcast_step_noRaise`: in every state of the invariant, on a configuration satisfying `BC.cfgHypb`,
+  a `step` whose items are points of the declared action spaces returns (`determine_broadcast` is characterised as a
+  `flatMap` over the window, `BC.determine_eq`; every agent it returns has a receiving list).
+* **delivery, soundness** `broadcast_delivery_partial`: `determine_broadcast` returns, and whoever it returns is *reached*
+  in the sense of the specification (`BC.reaches`: another active agent within the broadcast range, encoding allowed by
+  the mapping, on a cell the rule of C10 does not hide) — nothing is delivered that did not reach.
+
 NOT proved (statements kept here; the judge evaluates them at run time on every trace of the correspondence stream):
 
-* `broadcast_step_noRaise` — under `BC.goodb` (the invariant above plus `BC.cfgHypb`) a `step` whose items satisfy
-  `BC.actInSpace` returns:
-  `∀ cfg w0 s acts, Good cfg w0 s → cfgHypb cfg s.w = true → (∀ x ∈ acts, actInSpace cfg s.w x = true) →
-     ∃ s', BC.step cfg s acts = .ok s'`.
-  Missing: the characterisation of the double loop of `determine_broadcast` as a `flatMap` over the window
-  (`foldE_append`), from which `∀ b ∈ determine …, b is a broadcaster with a receiving list` follows with
-  `mem_cell_iff_pos`; the second and third loop are `Ex.moveAct_ok` / `accrue` on a full ledger.
-* `broadcast_delivery` — `∀ cfg w0 s acts s', Good cfg w0 s → cfgHypb cfg s.w = true → BC.step cfg s acts = .ok s' →
+* `broadcast_delivery` (full) — `∀ cfg w0 s acts s', Good cfg w0 s → cfgHypb cfg s.w = true → BC.step cfg s acts = .ok s' →
      ∃ rv, s.recv = some rv ∧ s'.recv = some (BC.recvAfter cfg s.w s.msgs acts rv)`:
-  a receiving list grows by exactly the senders that reach the receiver (`BC.reaches`: within range, encoding allowed,
-  not hidden by the rule of C10), in the order of the action dict.  Missing: the same characterisation plus
-  `Observers.at2_localGrid`, `Observers.at2_maskFor` and `Nodup` of the scan (an agent stands in one cell).
+  a receiving list grows by EXACTLY the senders that reach the receiver, once each, in the order of the action dict.
+  Proved: the "only if" half at the level of one scan (`broadcast_delivery_partial`).  Missing: completeness (a reached
+  agent is in the scan: the converse reading of `BC.determine_eq` with `mem_cell_iff_pos`), `Nodup` of the scan (an agent
+  stands in one cell: `List.nodup_flatMap`), and the bookkeeping that turns the per-sender `dictSet`s into the
+  per-receiver `filterMap` of `recvAfter`.
 * `broadcast_hist` — `∀ cfg w0 ops, bcPre cfg w0 ops = true →
-     specBC cfg w0 (zipOps ops (runOps cfg (init w0) ops).1) = true`.  Missing: the two above (every other clause of
+     specBC cfg w0 (zipOps ops (runOps cfg (init w0) ops).1) = true`.  Missing: full delivery (every other clause of
   `judge1` is one of the theorems of this file).  The driver evaluates `specBC` on the model's own exact run of every
   request (reply field `specOnModel`): a `0` there is reported as a broken obligation.
 -/
@@ -114,6 +117,21 @@ theorem broadcast_obs_reads_and_resets (cfg : BC.Cfg) (w0 : World) (s : BC.St) (
   obtain ⟨g, t', _, _, _, hyes⟩ := BC.getObs_spec hG ha henc hammo
   obtain ⟨rv, rf, own, hrv, hrf, hown, _, _, hget⟩ := hyes hb
   exact ⟨_, _, rv, rf, own, hget, hrv, hrf, hown, rfl, rfl, rfl, rfl⟩
+
+/-! ## C02: actions -/
+
+/-- **a step with in-space actions does not raise** under the configuration hypothesis -/
+theorem broadcast_step_noRaise (cfg : BC.Cfg) (w0 : World) (hcfg : CfgOK w0) (s : BC.St) (hG : BC.Good cfg w0 s)
+    (hH : BC.cfgHypb cfg s.w = true) (acts : List (Aid × BC.Act))
+    (hA : ∀ x ∈ acts, BC.actInSpace cfg s.w x = true) : ∃ s', BC.step cfg s acts = .ok s' :=
+  BC.step_returns hcfg hG hH hA
+
+/-- **delivery, soundness half**: in a world of the invariant, for a broadcaster standing on the grid whose encoding is
+a key of the mapping, `determine_broadcast` returns and every agent it returns is reached (`BC.reaches`) -/
+theorem broadcast_delivery_partial (cfg : BC.Cfg) (w : World) (a : Aid) (l : List Int) (hI : w.WInv = true)
+    (hl : cfg.mapping.lookup (w.encOf a) = some l) (hp : w.inGrid (w.stOf a).pos = true) :
+    ∃ tos, BC.determine cfg w a = .ok tos ∧ ∀ b ∈ tos, BC.reaches cfg w a b = true :=
+  ⟨_, BC.determine_eq hl hp, fun _ hb => BC.determine_sound hI hl hp (BC.determine_eq hl hp) hb⟩
 
 /-! ## C08 -/
 
